@@ -207,6 +207,77 @@ func (c *Ctx) enumDescentGuards(rule string) {
 	}
 }
 
+// enumNodeDescentGuards: Tips() must walk exactly the nodes Nodes() walks: the conditions on the
+// recursive call of tipsRecur that depend only on the current node are those of nodesRecur (none
+// today). A tip test on the descent (`append; return` for a tip) hides everything below a root
+// that has a single neighbour.
+func (c *Ctx) enumNodeDescentGuards(rule string) {
+	guardOf := func(h string) (string, *FuncInfo, bool) {
+		fi := c.Func("tree", "Tree", h)
+		if fi == nil {
+			return "", nil, false
+		}
+		info := fi.Pkg.TypesInfo
+		cur := paramObj(info, fi.Decl, 1)
+		o := &canonOpts{subst: map[types.Object]string{cur: "$CUR"}}
+		var guard []string
+		for _, call := range callsIn(fi.Decl.Body, true) {
+			if calleeOf(info, call) != fi.Obj {
+				continue
+			}
+			conds, okc := c.pathConds(info, fi.Decl.Body, call, false)
+			if !okc {
+				return "", fi, false
+			}
+			loopVars := map[types.Object]bool{}
+			ast.Inspect(fi.Decl.Body, func(n ast.Node) bool {
+				if rs, ok := n.(*ast.RangeStmt); ok {
+					for _, e := range []ast.Expr{rs.Key, rs.Value} {
+						if e != nil {
+							if ob := identObj(info, e); ob != nil {
+								loopVars[ob] = true
+							}
+						}
+					}
+				}
+				return true
+			})
+			for _, cd := range conds {
+				if cd.Expr == nil || !mentions(info, cd.Expr, cur) {
+					continue
+				}
+				only := true
+				for lv := range loopVars {
+					if mentions(info, cd.Expr, lv) {
+						only = false
+					}
+				}
+				// `cur == nil` (start at the root) is not a filter
+				if _, _, isNil := nilTest(info, cd.Expr); isNil || !only {
+					continue
+				}
+				k := c.inlineNneigh(c.inlineTip(c.toBexpr(info, cd.Expr, o))).String()
+				if cd.Neg {
+					k = "!" + k
+				}
+				guard = append(guard, k)
+			}
+		}
+		return strings.Join(guard, " && "), fi, true
+	}
+	ref, _, ok1 := guardOf("nodesRecur")
+	g, fi, ok2 := guardOf("tipsRecur")
+	if fi == nil {
+		return
+	}
+	if !ok1 || !ok2 {
+		c.Undecided(rule, "tree.Tree.tipsRecur/descent-guard", fi.Decl.Pos(), "guard shape not understood")
+		return
+	}
+	c.Check(g == ref, rule, "tree.Tree.tipsRecur/descent-guard", fi.Decl.Pos(), "Tips() walks exactly the nodes Nodes() walks (descent guard: `"+g+"`)",
+		fmt.Sprintf("tipsRecur descends under `%s` while nodesRecur descends under `%s`: when the starting node has a single neighbour the tip enumeration stops at it and the tips below are lost", g, ref)).Clause = "node, tip and branch enumerations agree with each other"
+}
+
 // inlineTip rewrites the atom `X.Tip()` into the comparison len(X.neigh) == 1 it stands for, so that
 // `e.Right().Tip()` and `len(e.right.neigh) == 1` meet. Tip() is checked to be exactly that.
 func (c *Ctx) inlineTip(b *bexpr) *bexpr {
